@@ -136,14 +136,11 @@ def compare(impl, model, channels, canon=None):
             (op, il), (_, ml) = iops[i], mops[i]
             incidental = False
             if canon and op.startswith("rmc ") and il != ml:
-                # `remove_component` despawns the entities that have the component in an unspecified order. When more than
-                # one entity is despawned and handlers react to it, the two sides may legitimately end in different states
-                # (ordinals, serials, even how far a budgeted cascade gets): nothing from here on can CONFIRM a violation.
-                k = op.split(" ")[1]
-                prev = [l for l in (iops[i - 1][1] if i > 0 else []) if l.startswith("st ")]
-                holders = len(re.findall(r"[{,]" + re.escape(k) + r"[:,}]", prev[0])) if prev else 2
-                if holders >= 2:
-                    break
+                # `remove_component` despawns the entities that have the component in an unspecified order, and handlers of
+                # the RemoveComponent / Despawn notifications can make the outcome depend on that order (ordinals, serials,
+                # what a fetcher sees mid-cascade, how far a budgeted cascade gets). A difference that first shows in such
+                # an operation cannot CONFIRM a violation, and neither can anything after it in the same history.
+                break
             if canon and op.startswith("setgen ") and il != ml:
                 # the generation hook acts on whichever slot the entity happens to occupy: a different (unspecified) slot
                 # reuse order makes it succeed on one side only; everything downstream is an artefact of the hook
